@@ -22,8 +22,10 @@ def specShape : Parser.ArgSpec → Nat × Option Nat × Nat
   | .mapArg _ => (2, some 2, 2)
   | .varArg _ => (1, none, 3)
 
-/-- [C02, C08] the builtin table: same names in the same order, same arity class for each -/
-theorem builtin_names : (builtins.map (fun r => r.2.1) == Parser.builtinTable.map (·.1)) = true := by decide
+/-- [C02, C08] the builtin table: the same set of names, each once, same arity class for each -/
+theorem builtin_names :
+    (sameSet (builtins.map (fun r => r.2.1)) (Parser.builtinTable.map (·.1))
+     && (builtins.length == Parser.builtinTable.length)) = true := by decide
 
 /-- [C02, C08] arity classes -/
 theorem builtin_arities :
